@@ -15,7 +15,8 @@ RULE = ("state graph of the CRC automaton: case ('step', hi) = all 256 start val
         "byte values, each a call crc8404B(bytes([b]), s) compared with the bit-serial step, plus the empty input for every start value (base case); ('comp', s) = all 65536 "
         "two-byte strings from start s: crc(ab,s) == crc(b, crc(a,s)) == reference; ('default2',) all strings of "
         "length <= 2 from the default start; ('long', i) long strings end to end. Every case is distinct and non-trivial "
-        "(it executes real transitions); counts are the number of transitions actually executed.")
+        "(it executes real transitions); counts are the number of transitions actually executed."
+        " ('forms', i): every input also as bytearray / list / tuple / memoryview / iterator / generator.")
 ASSUMPTIONS = [
     "crc8404B loops over its input one byte at a time with the running value as only state (read from the source; "
     "the composition check over all 2-byte strings and the long strings would expose position-dependent behaviour)",
